@@ -516,12 +516,81 @@ pub fn run(tier: Tier, totals: &mut Totals) {
     totals.traces += scripts;
     totals.nontrivial += scripts;
     totals.extra.insert("script_sequences".into(), json!(scripts));
+    for n in tier.pick(vec![300usize, 3000], vec![300usize, 3000, 30000]) {
+        totals.evals += 1;
+        totals.transitions += 1;
+        totals.traces += 1;
+        totals.nontrivial += 1;
+        if let Err((sig, what)) = guarded(|| scale_registry(n)).unwrap_or_else(|p| Err(("scale:panic".to_string(), p))) {
+            let e = totals.failures.entry(sig.clone()).or_insert((0, vec![]));
+            e.0 += 1;
+            e.1.push(json!({"idx": 0, "sig": sig, "what": what, "replay": {"scale_registry": n}}));
+        }
+    }
     if totals.samples.len() < 8 {
         totals.samples.push(json!({"script_ops": seqs.last().map(|s| s.iter().map(|&k| format!("{:?}", ops[k])).collect::<Vec<_>>())}));
     }
 }
 
+/// A registry with n commands of two aliases each: every name and alias resolves to its own command,
+/// refused registrations (taken name, taken alias) change nothing, removing every second command by
+/// one of its aliases leaves exactly the others.
+fn scale_registry(n: usize) -> Result<(), (String, String)> {
+    let mut c = Commands::new();
+    let cmd = |i: usize| Cmd { name: format!("pkg::Cmd{}", i), aliases: vec![format!("c{}", i), format!("alias_{}", i)] };
+    let err = |sig: &str, what: String| Err((format!("scale:{}", sig), what));
+    for i in 0..n {
+        if c.set(Box::new(cmd(i))).is_err() {
+            return err("set-refused", format!("registration {} of {} refused", i, n));
+        }
+    }
+    // refused registrations
+    let before = c.get_all_command_names();
+    if c.set(Box::new(Cmd { name: "pkg::Cmd7".into(), aliases: vec!["fresh".into()] })).is_ok() {
+        return err("taken-name-accepted", "a second pkg::Cmd7 was accepted".into());
+    }
+    if c.set(Box::new(Cmd { name: "pkg::Other".into(), aliases: vec!["fresh2".into(), format!("c{}", n - 1)] })).is_ok() {
+        return err("taken-alias-accepted", format!("a command with the taken alias c{} was accepted", n - 1));
+    }
+    if c.get_all_command_names() != before || c.exists("fresh") || c.exists("fresh2") || c.exists("pkg::Other") {
+        return err("refused-registration-left-a-trace", "the registry changed after refused registrations".into());
+    }
+    let names = c.get_all_command_names();
+    if names.len() != n {
+        return err("name-count", format!("{} names listed, {} registered", names.len(), n));
+    }
+    for i in 0..n {
+        for key in [format!("pkg::Cmd{}", i), format!("c{}", i), format!("alias_{}", i)] {
+            match c.get(&key) {
+                Some(found) if found.name() == format!("pkg::Cmd{}", i) => (),
+                other => return err("lookup", format!("{} resolves to {:?}", key, other.map(|x| x.name()))),
+            }
+        }
+    }
+    for i in (0..n).step_by(2) {
+        let key = if i % 4 == 0 { format!("c{}", i) } else { format!("pkg::Cmd{}", i) };
+        if !c.remove(&key) {
+            return err("remove-refused", format!("remove({}) returned false", key));
+        }
+    }
+    for i in 0..n {
+        let removed = i % 2 == 0;
+        for key in [format!("pkg::Cmd{}", i), format!("c{}", i), format!("alias_{}", i)] {
+            if c.exists(&key) == removed {
+                return err("after-remove", format!("{} exists = {} after removing every second command", key, !removed));
+            }
+        }
+    }
+    if c.get_all_command_names().len() != n / 2 {
+        return err("name-count-after-remove", format!("{} names listed after removing {} of {}", c.get_all_command_names().len(), n - n / 2, n));
+    }
+    Ok(())
+}
+
 pub fn replay(case: &Value) -> Result<String, String> {
+    if let Some(n) = case.get("scale_registry").and_then(|v| v.as_u64()) {
+        return Ok(format!("{:?}", scale_registry(n as usize)));
+    }
     if let Some(h) = case.get("history") {
         let sys = SysA::new(Tier::Thorough);
         let mut s = sys.new_impl();
@@ -550,7 +619,7 @@ pub fn replay(case: &Value) -> Result<String, String> {
     Ok(format!("{:?} -> {:?}", seq, run_sequence(&seq)))
 }
 
-pub const RULE: &str = "Part A: explicit-state breadth-first search to a fixpoint from the empty registry over the Rust API: set(c) for every command with name in {a,b,c} and an alias set of size <= 2 from the pool, remove/get/exists/get_for_use for every name of {a,b,c,x,y}, get_all_command_names; every transition is compared with the model (name table + alias table consulted first; an accepted registration drops an alias equal to the new name; removal drops exactly the aliases that point to the removed command): result of the call, refused registrations and lookups leave both public maps identical, every lookup of the universe agrees, no alias points to a missing command. Part B: every sequence of 1..k script-level operations (alias / unalias / remove_command / is_command_defined / fn definition / call, over the names x, y, echo and std::Echo) run as one script on the full standard library; outputs of every step and the final name and alias tables of the whole registry are compared with the same model. evaluations = transitions + scripts";
+pub const RULE: &str = "Part A: explicit-state breadth-first search to a fixpoint from the empty registry over the Rust API: set(c) for every command with name in {a,b,c} and an alias set of size <= 2 from the pool, remove/get/exists/get_for_use for every name of {a,b,c,x,y}, get_all_command_names; every transition is compared with the model (name table + alias table consulted first; an accepted registration drops an alias equal to the new name; removal drops exactly the aliases that point to the removed command): result of the call, refused registrations and lookups leave both public maps identical, every lookup of the universe agrees, no alias points to a missing command. Part B: every sequence of 1..k script-level operations (alias / unalias / remove_command / is_command_defined / fn definition / call, over the names x, y, echo and std::Echo) run as one script on the full standard library; outputs of every step and the final name and alias tables of the whole registry are compared with the same model. evaluations = transitions + scripts. Scale case: a registry of 300/3000 (thorough 30000) commands with two aliases each: every name and alias resolves to its own command, refused registrations leave no trace, removing every second command (by name or alias) leaves exactly the others";
 pub const ASSUMPTIONS: &[&str] = &["unalias of a name that was once created with alias removes whatever command that name resolves to now (the implementation's bookkeeping is mirrored)", "a function defined twice in one script is refused by the function table, not the registry"];
 pub const EXHAUSTIVE: bool = true;
 pub const WALL_CAP_S: (u64, u64) = (55, 1500);
